@@ -330,6 +330,28 @@ class CFG:
         return {n for (n, tag) in self._feasible([(st, frozenset()) for st in starts if st not in set(avoid_nodes)],
                                                  set(avoid_nodes), avoid_edges, explicit_only, None)}
 
+    def _learn(self, test_e, lab, f2):
+        """what taking the `lab` edge of a test establishes about once-bound boolean locals (added to the dict f2)"""
+        for bn in self._boolnames():
+            if bn in f2:
+                continue
+            isb = (lambda e, bn=bn: isinstance(e, ast.Name) and e.id == bn)
+            tt, tf = truth_on_branch(test_e, truthy_atom(isb))
+            k = tt if lab == 'T' else tf
+            if k is True:
+                f2[bn] = 'truthy'
+            elif k is False:
+                f2[bn] = 'falsy-bool'
+
+    def _reach_from_edge(self, x, y, lab, explicit_only=False):
+        """nodes feasibly reachable after taking the edge x -(lab)-> y (what that edge establishes about boolean locals is kept)"""
+        s = self.stmt[x]
+        test_e = s[1] if (isinstance(s, tuple) and s[0] == "COND") else (s.test if isinstance(s, (ast.If, ast.While)) else None)
+        f = {}
+        if test_e is not None and lab in ('T', 'F'):
+            self._learn(test_e, lab, f)
+        return {n for (n, tag) in self._feasible([(y, frozenset(f.items()))], set(), (), explicit_only, None)}
+
     def _feasible(self, init, avoid_nodes, avoid_edges, explicit_only, via):
         """like reach(), but paths contradicting what is known about local sentinels are dropped: after `x = None`
         (or `x = <constant>`) the branch of a later `if x is None` / `if x` / `if not x` that contradicts it is not
@@ -363,12 +385,14 @@ class CFG:
                             dead = True
                         tt, tf = truth_on_branch(test_e, truthy_atom(isname))
                         known_true = tt if lab == 'T' else tf
-                        if known_true is True and val in ('none', 'falsy'):
+                        if known_true is True and val in ('none', 'falsy', 'falsy-bool'):
                             dead = True
                         if known_true is False and val == 'truthy':
                             dead = True
                     if dead:
                         continue
+                    # correlated tests on one once-bound boolean local: what this edge establishes about it holds at the next test
+                    self._learn(test_e, lab, f2)
                 elif isinstance(s, ast.AST) and lab != 'exc':
                     for t in _stored_simple(s):
                         f2.pop(t, None)
@@ -474,7 +498,7 @@ class CFG:
             elif isinstance(s, (ast.If, ast.While)) and not (self.split and self._is_compound_test(s.test)):
                 test = s.test
             if test is not None:
-                vt, vf = truth_on_branch(test, atom)
+                vt, vf = truth_on_branch(self._resolve_flags(test), atom)
                 for (y, lab) in self.succ[n]:
                     if lab == 'T' and vt is value:
                         out.append((n, y, lab))
@@ -482,10 +506,88 @@ class CFG:
                         out.append((n, y, lab))
         return out
 
+    def _boolnames(self):
+        """locals bound exactly once, to a boolean-valued expression (comparison, and/or/not of such, isinstance(..), True/False)"""
+        if getattr(self, "_boolmap", None) is not None:
+            return self._boolmap
+        fn = self.fn
+        stores = collections.Counter(n.id for n in ast.walk(fn) if isinstance(n, ast.Name) and isinstance(n.ctx, (ast.Store, ast.Del)))
+
+        def boolish(v):
+            if isinstance(v, ast.Compare):
+                return True
+            if isinstance(v, ast.UnaryOp) and isinstance(v.op, ast.Not):
+                return True
+            if isinstance(v, ast.BoolOp):
+                return all(boolish(x) for x in v.values)
+            if isinstance(v, ast.Constant) and isinstance(v.value, bool):
+                return True
+            return isinstance(v, ast.Call) and isinstance(v.func, ast.Name) and v.func.id in ("isinstance", "bool", "callable", "hasattr", "issubclass")
+        out = set()
+        for a in ast.walk(fn):
+            if isinstance(a, ast.Assign) and len(a.targets) == 1 and isinstance(a.targets[0], ast.Name) \
+                    and stores[a.targets[0].id] == 1 and boolish(a.value):
+                out.add(a.targets[0].id)
+        self._boolmap = out
+        return out
+
+    def _flags(self):
+        """once-bound boolean locals that stand for the test they were bound to: name -> expression.
+        `flag = <test>` ... `if flag:` reads like `if <test>:` as long as what the test looks at is not changed in between,
+        except by the very action the flag guards: every write to an attribute the test mentions must sit under an `if`
+        on that flag, and the names it mentions must be parameters or once-bound locals."""
+        if getattr(self, "_flagmap", None) is not None:
+            return self._flagmap
+        fn = self.fn
+        out = {}
+        stores = collections.Counter(n.id for n in ast.walk(fn) if isinstance(n, ast.Name) and isinstance(n.ctx, (ast.Store, ast.Del)))
+        prm = {a.arg for a in ast.walk(fn.args) if isinstance(a, ast.arg)} if hasattr(fn, "args") else set()
+        for a in ast.walk(fn):
+            if not (isinstance(a, ast.Assign) and len(a.targets) == 1 and isinstance(a.targets[0], ast.Name)):
+                continue
+            name, v = a.targets[0].id, a.value
+            if stores[name] != 1 or name in prm:
+                continue
+            if not (isinstance(v, (ast.Compare, ast.BoolOp)) or (isinstance(v, ast.UnaryOp) and isinstance(v.op, ast.Not))):
+                continue
+            if any(isinstance(x, (ast.Call, ast.Await, ast.Yield, ast.NamedExpr)) for x in ast.walk(v)) and \
+                    not all(isinstance(x.func, ast.Name) and x.func.id in ("isinstance", "len", "bool") for x in ast.walk(v) if isinstance(x, ast.Call)):
+                continue
+            ok = all(x.id in prm or stores[x.id] <= 1 for x in ast.walk(v) if isinstance(x, ast.Name))
+            attrs = {ast.dump(x) for x in ast.walk(v) if isinstance(x, ast.Attribute)}
+            for w in ast.walk(fn):
+                if isinstance(w, ast.Attribute) and isinstance(w.ctx, (ast.Store, ast.Del)):
+                    d = ast.dump(w).replace("Store()", "Load()").replace("Del()", "Load()")
+                    if d in attrs:
+                        under = False
+                        p = getattr(w, "_parent", None)
+                        while p is not None and p is not fn:
+                            if isinstance(p, ast.If) and any(isinstance(x, ast.Name) and x.id == name for x in ast.walk(p.test)):
+                                under = True
+                            p = getattr(p, "_parent", None)
+                        ok = ok and under
+            if ok:
+                out[name] = v
+        self._flagmap = out
+        return out
+
+    def _resolve_flags(self, test):
+        flags = self._flags()
+        if not flags or not any(isinstance(x, ast.Name) and x.id in flags for x in ast.walk(test)):
+            return test
+        import copy
+
+        class Sub(ast.NodeTransformer):
+            def visit_Name(self, n):
+                if isinstance(n.ctx, ast.Load) and n.id in flags:
+                    return copy.deepcopy(flags[n.id])
+                return n
+        return Sub().visit(copy.deepcopy(test))
+
     def only_when(self, targets, atom, value, start=None):
         """targets reachable without passing an edge on which atom is known to be `value` (empty: properly guarded)"""
         avoid = set(self.cond_edges(atom, value))
-        r = self.reach(start or self.entry, avoid_edges=avoid)
+        r = self.reach_feasible(start or self.entry, avoid_edges=avoid)
         return [t for t in targets if t in r]
 
     def when_never_reaches(self, atom, value, targets, explicit_only=False):
@@ -493,7 +595,7 @@ class CFG:
         edges = self.cond_edges(atom, value)
         bad = set()
         for (x, y, lab) in edges:
-            r = self.reach([y], explicit_only=explicit_only)
+            r = self._reach_from_edge(x, y, lab, explicit_only)
             bad |= (set(targets) & r)
         return len(edges), sorted(bad)
 
@@ -504,7 +606,7 @@ class CFG:
 
     def precedes(self, a_nodes, b_nodes):
         """every path ENTRY -> some b passes some a first; returns the b nodes reachable without a"""
-        r = self.reach(self.entry, avoid_nodes=set(a_nodes))
+        r = self.reach_feasible(self.entry, avoid_nodes=set(a_nodes))
         return [b for b in b_nodes if b in r and b not in a_nodes]
 
     def reaches_after(self, a_nodes, b_nodes):
